@@ -218,6 +218,14 @@ def forward_cases(ctx, lines, expect):
         q.quantize(model, weights=q.qtypes[wq], activations=None if aq is None else q.qtypes[aq])
         model.to(dt)
         qm = model[0]
+        from optimum.quanto.nn import QModuleMixin as _QM
+        must_swap = kind in ("lin", "conv") or aq is not None
+        if isinstance(qm, _QM) != must_swap:
+            ctx.spec_failures.append(("C08:selected-eligible-module-not-replaced" if must_swap else "C08:module-replaced-although-not-eligible",
+                                      {"module": type(fm).__name__, "weights": wq, "activations": aq, "note": "single-module model, after the earlier quantize() calls of this process"}))
+            continue
+        if not must_swap:
+            continue
         if aq is not None:
             with torch.no_grad():
                 qm.input_scale.fill_(float(x.abs().max()) / float(torch.finfo(q.qtypes[aq].dtype).max if q.qtypes[aq].is_floating_point else 127))
